@@ -49,12 +49,16 @@ def run_interleaving(ctx: C.Ctx, zdir: Path, init: dict, dates: list[str]):
     elif p.exists():
         p.unlink()
     outs = []
-    mgr = None
+    # two manager objects may be alive at once (two zorg processes on one notes directory whose allocations follow one
+    # another): "~" = the allocation goes through the second one, "!" = that process was restarted first
+    mgrs = [None, None]
     for i, d in enumerate(dates):
-        restart = d.startswith("!")
-        d = d.lstrip("!")
-        if mgr is None or restart:
-            mgr = ZIDManager(zdir)
+        pre = d[: len(d) - len(d.lstrip("!~"))]
+        d = d.lstrip("!~")
+        slot = 1 if "~" in pre else 0
+        if mgrs[slot] is None or "!" in pre:
+            mgrs[slot] = ZIDManager(zdir)
+        mgr = mgrs[slot]
         date = dt.date(2000 + int(d[:2]), int(d[2:4]), int(d[4:6]))
         try:
             outs.append(mgr.get_next(date))
@@ -213,11 +217,11 @@ def body(ctx: C.Ctx, proof: C.ProofStatus) -> C.Result:
             if rng.random() < 0.5:
                 init[d] = rng.choice(roll) if rng.random() < 0.8 else "".join(rng.choice(alpha) for _ in range(rng.choice((2, 3))))
         nops = rng.randint(5, 60)
-        dates = [("!" if rng.random() < 0.4 else "") + rng.choice(pool) for _ in range(nops)]
+        dates = [("!" if rng.random() < 0.4 else "") + ("~" if rng.random() < 0.3 else "") + rng.choice(pool) for _ in range(nops)]
         outs, final = run_interleaving(ctx, ctx.tmp / f"z{i % 8}", init, dates)
         case = {"init": init, "dates": dates}
         cases.append((case, outs, final))
-        reqs.append({"op": "zid.allocs", "init": [[k, v] for k, v in init.items()], "dates": [d.lstrip("!") for d in dates]})
+        reqs.append({"op": "zid.allocs", "init": [[k, v] for k, v in init.items()], "dates": [d.lstrip("!~") for d in dates]})
         res.evaluations += 1
         zids = [o for o in outs if isinstance(o, str)]
         res.nontrivial.add(("seq", tuple(zids)))
@@ -360,12 +364,12 @@ def classify(f: C.Failure, entry: dict) -> bool:
 
 RULE = (
     "complete successor chain of _get_next_id from '00' (exhaustive, 135k steps) vs the Lean model; random "
-    "interleavings of ZIDManager.get_next over 1-4 dates with fresh manager objects and pre-seeded roll-over "
+    "interleavings of ZIDManager.get_next over 1-4 dates through two live manager objects (each re-created at random: restarts) and pre-seeded roll-over "
     "states vs Zid.alloc; allocated ZIDs lexed by both real lexers and recompiled; distinct = distinct suffix / "
     "distinct ZID sequence"
 )
 ASSUME = [
-    "restart = identity on next_ids.json (ZIDManager keeps no state in memory)",
+    "restart = identity on next_ids.json (ZIDManager keeps no state in memory)", "allocations of different processes follow one another (no lock is claimed by the code: truly simultaneous read-modify-write is outside the statement)",
     "json/file IO atomic",
     "ANTLR lexers run as DFA maximal munch (validated by token correspondence)",
 ]
